@@ -1258,6 +1258,43 @@ fn run_ops_inner(settings: &SettingsDesc, ops: &[Op], faults_mode: bool, attribu
                 if !faults_mode && poisoned_op {
                     s.out.harness_error = Some("poisoned op in a faults=off run".into());
                 }
+                // ----- re-delivery of a call that failed because of an invalid default -----
+                // The same schemas carry the same invalid default: the second
+                // delivery has to be refused like the first one (never accepted
+                // because some bookkeeping now considers the definitions "added").
+                if is_readd && poisoned_op {
+                    let first_failed = matches!(
+                        s.results.get(source_index),
+                        Some(Some(CallResult::Err(_))) | Some(Some(CallResult::Panic(_)))
+                    );
+                    let kind = src.poison().unwrap_or("").to_string();
+                    if first_failed && res.is_ok() {
+                        if kind == "bad-default" || kind == "int-default-range" {
+                            // where the invalid default sits: on a property of the delivered
+                            // definition itself, or on an inline sub-type (which typify re-uses
+                            // BY NAME from the failed call and therefore never re-validates)
+                            let mut where_ = "own-property";
+                            for (path, sch) in &schemas {
+                                for site in model::default_sites(sch, path, &defs_after) {
+                                    if site.valid == Some(false) && site.path.matches("/properties/").count() >= 2 {
+                                        where_ = "nested-inline";
+                                    }
+                                }
+                            }
+                            s.violate(
+                                "I9",
+                                format!("invalid-default-accepted-on-redelivery:{opkind}|{kind}:{where_}"),
+                                step,
+                                format!("{opkind}: the first delivery was refused, the identical re-delivery returned Ok although it carries the same invalid default"),
+                                "an invalid default is reported as an error when the schema is added (every time it is added)",
+                            );
+                        } else {
+                            s.out.probe(&format!("redelivery_of_failed_call_accepted.{kind}"));
+                        }
+                    } else if first_failed {
+                        s.out.probe("redelivery_of_failed_call_refused_again");
+                    }
+                }
                 // ----- a successful delivery after an earlier failed call -----
                 // (e.g. the client's retry without the offending definition): the
                 // one thing that can be demanded of the documented "weird state" is
